@@ -83,6 +83,10 @@ def exhaustive(tier: str) -> bool:
     return False  # the bounded universe is enumerated completely, the random part is not
 
 
+def priority_cases(tier: str) -> list[int]:
+    return [plan(tier)["cases"] - 1]  # the suite run carries a deciding counter: never cut it off at the budget
+
+
 def gen_case(idx: int, seed: int, tier: str) -> Any:
     n_enum = len(universe())
     if idx == plan(tier)["cases"] - 1:
